@@ -14,7 +14,7 @@ ASSUMPTIONS = ["cubic box N in [3,64] symbolic; voxel offset v with c+v and c+Rv
                "windows: volume extents in [4,40], even window extents in [2,16], centre coordinates in [-30,70] as integers or half-integers",
                "symmetrisation: n in 2..12 enumerated; place_object: cube-rotation orientations, template 4^3/5^3 opaque, 1..2 poses"]
 OUTSIDE = ["anything that depends on spline-interpolated values: inverse rotation restoring a smooth map, arbitrary-angle rotation of blobs, total density under non-right-angle rotation",
-           "non-cubic boxes under rotation"]
+           "non-cubic boxes under rotation beyond four right-angle rotations (voxels that stay inside the box)"]
 BOUNDS = {"quick": {"cube_rotations": 24, "N": "3..64 symbolic"}, "thorough": {"cube_rotations": 24, "N": "3..64 symbolic"}}
 EXPECTED_EXCEPTIONS = ()
 OPTS = {"qtimeout": 20.0}
@@ -56,28 +56,45 @@ def _Rint(angles):
     return mm(rz(psi), mm(rx(theta), rz(phi)))
 
 
-def h_rotate_cube(env, angles=(90, 0, 0), via="angles"):
+def h_rotate_cube(env, angles=(90, 0, 0), via="angles", noncubic=False):
     cm = env.module("cryomap")
-    N = env.integer("N", 3, 64)
     v = [env.integer("v%s" % a, -32, 32) for a in "xyz"]
-    c = N // 2
     R = _Rint(angles)
     Rv = [sum(R[i][k] * v[k] for k in range(3)) for i in range(3)]
-    src = [c + a for a in v]
-    dst = [c + a for a in Rv]
-    env.assume(env.and_(*[env.and_(env.ge(p, 1), env.le(p, N - 2)) for p in src + dst]))
-    if env.mode == "sym":
-        from sx import larray
-        m = larray.uf_array("m", (N, N, N))
+    if noncubic:
+        # a box with three independent extents: the pivot is floor(N_k/2) on EVERY axis; the relation is claimed for the voxels
+        # that lie inside the box (one voxel away from the faces) before and after the rotation
+        NN = [env.integer("N%s" % a, 3, 40) for a in "xyz"]
+        cc = [n_ // 2 for n_ in NN]
+        src = [cc[k] + v[k] for k in range(3)]
+        dst = [cc[k] + Rv[k] for k in range(3)]
+        env.assume(env.and_(*[env.and_(env.ge(src[k], 1), env.le(src[k], NN[k] - 2), env.ge(dst[k], 1), env.le(dst[k], NN[k] - 2)) for k in range(3)]))
+        env.assume(env.or_(env.not_(env.eq(NN[0], NN[2])), env.not_(env.eq(NN[0], NN[1]))))
+        N = None
+        if env.mode == "sym":
+            from sx import larray
+            m = larray.uf_array("m", tuple(NN))
+        else:
+            m = np.random.default_rng(2).standard_normal(tuple(int(n_) for n_ in NN))
     else:
-        m = np.random.default_rng(2).standard_normal((int(N),) * 3)
+        N = env.integer("N", 3, 64)
+        c = N // 2
+        src = [c + a for a in v]
+        dst = [c + a for a in Rv]
+        env.assume(env.and_(*[env.and_(env.ge(p, 1), env.le(p, N - 2)) for p in src + dst]))
+        if env.mode == "sym":
+            from sx import larray
+            m = larray.uf_array("m", (N, N, N))
+        else:
+            m = np.random.default_rng(2).standard_normal((int(N),) * 3)
+        NN = [N, N, N]
     if via == "angles":
         out = cm.rotate(m, rotation_angles=list(angles), spline_order=1 if env.mode == "conc" else 3)
     else:
         rot = cm.srot.from_euler("zxz", list(angles), degrees=True)
         out = cm.rotate(m, rotation=rot, transpose_rotation=True, spline_order=1 if env.mode == "conc" else 3)
     env.check("density_at_offset_v_moves_to_R_v", env.eq(at(out, dst), at(m, src)))
-    env.check("shape_kept", env.and_(*[env.eq(s, N) for s in out.shape]))
+    env.check("shape_kept", env.and_(*[env.eq(s_, n_) for s_, n_ in zip(out.shape, NN)]))
 
 
 def _half(env, name, lo, hi, half):
@@ -273,6 +290,8 @@ def jobs(tier, seed):
     j = []
     for k, a in enumerate(cube_angles()):
         j.append(("h_rotate_cube", {"angles": a, "via": "angles" if k % 2 == 0 else "rotation"}))
+    j += [("h_rotate_cube", {"angles": [90, 0, 0], "noncubic": True}), ("h_rotate_cube", {"angles": [0, 180, 0], "noncubic": True, "via": "rotation"}),
+          ("h_rotate_cube", {"angles": [90, 90, 0], "noncubic": True}), ("h_rotate_cube", {"angles": [180, 90, 270], "noncubic": True})]
     j += [("h_window", {"fn": "extract"}), ("h_window", {"fn": "extract", "half": True}), ("h_window", {"fn": "extract_enforce"}),
           ("h_crop_pad", {"fn": "crop"}), ("h_crop_pad", {"fn": "pad"})]
     for n in ((2, 3, 4, 7) if tier == "quick" else range(2, 13)):
